@@ -276,7 +276,7 @@ Lemma sz_embed_buffer st b d a fl r es st' : embed_buffer st b d a fl = Some (r,
 Proof.
   unfold embed_buffer. destruct (align_buffer_end st a b _) as [[[al es0] st1]|] eqn:E1; [|discriminate].
   destruct (emit_front _ _) as [[[r0 e0] st2]|] eqn:E2; [|discriminate]. intros H. injection H as _ _ <-.
-  apply sz_align_buffer_end in E1. apply sz_emit_front in E2. lia.
+  apply sz_align_buffer_end in E1. apply sz_emit_front in E2. rewrite sz_set_min_align in E2. lia.
 Qed.
 Lemma sz_end_buffer st root r es st' : end_buffer st root = Some (r, es, st') -> sz st <= sz st'.
 Proof.
